@@ -341,7 +341,7 @@ class Model(object):
     def pages_under(self, anchor):
         return [l for l in self.pages if l.startswith(anchor)]
 
-    def add_rule_observed(self, anchor, pattern, observed_we):
+    def add_rule_observed(self, anchor, pattern, observed_we, partial=False):
         """Rule installation on a populated index.  The statement is
         existential ("in some order"), so the model follows the observed
         creations: each created id, in increasing order, must be what some
@@ -375,6 +375,10 @@ class Model(object):
             w, v = self._create(variations(k))
             assert w == wid
         self.probe["rule_install_creations_%d" % min(len(observed_we), 3)] += 1
+        if partial:
+            # an installation the caller abandoned: the remaining pages were simply not reached
+            self.probe["rule_install_abandoned"] += 1
+            return None
         for l in sorted(todo):
             k = self.proposal(l)
             if k is not None:
